@@ -440,3 +440,38 @@ pub fn run_twin(out: &mut dyn Write, seed: u64, thorough: bool, n_hist: usize) {
         out.write_all(&bufn).unwrap();
     }
 }
+
+/// C10: position keys are sha3(vamm || trader) without a separator.  An account whose address is a
+/// suffix of another trader's, naming a forged vAMM string, reaches that trader's storage key;
+/// only the ownership guards of the handlers keep it out.
+pub fn run_forge(out: &mut dyn Write, seed: u64, _thorough: bool, n_hist: usize) {
+    let mut rng = Rng::new(seed);
+    for h in 0..n_hist {
+        let d = random_deploy(&mut rng, Some(h % 2 == 1), false);
+        let mut accts = accounts();
+        accts.push(ID_SUFFIX_ACCOUNT);
+        let mut w = World::new(&d, &accts);
+        let mut tr = Tracer { out, n: 0, observe_every_op: true };
+        tr.begin(&w, &format!("forge seed={} h={}", seed, h));
+        setup(&mut tr, &mut w, &mut rng);
+        let u = unit(w.d.decimals);
+        let rich = 1_000_000u128 * u;
+        tr.step(&mut w, &Op::Tok { sender: ID_OWNER, m: TMsg::Mint { to: ID_SUFFIX_ACCOUNT, amt: rich } });
+        if !w.d.native { tr.step(&mut w, &Op::Tok { sender: ID_SUFFIX_ACCOUNT, m: TMsg::Allow(rich * 10) }); }
+        let op = mk_open(&w, TRADERS[0], ID_VAMM0, if rng.chance(1, 2) { Side::Buy } else { Side::Sell }, u * (5 + rng.below(50) as u128), u * 2, 0);
+        tr.step(&mut w, &op);
+        tr.step(&mut w, &Op::Block { dt: 10, dh: 1 });
+        let amt = u * (1 + rng.below(30) as u128);
+        let funds = if w.d.native { amt } else { 0 };
+        // every position-touching entry point, with the forged vAMM string and with the real one
+        for vamm in [ID_FORGED_VAMM, ID_VAMM0] {
+            tr.step(&mut w, &Op::Eng { sender: ID_SUFFIX_ACCOUNT, funds, m: EMsg::Deposit { vamm, amt } });
+            tr.step(&mut w, &Op::Eng { sender: ID_SUFFIX_ACCOUNT, funds: 0, m: EMsg::Withdraw { vamm, amt: u } });
+            tr.step(&mut w, &Op::Eng { sender: ID_SUFFIX_ACCOUNT, funds: 0, m: EMsg::Close { vamm, limit: 0 } });
+            let of = if w.d.native { u } else { 0 };
+            tr.step(&mut w, &Op::Eng { sender: ID_SUFFIX_ACCOUNT, funds: of, m: EMsg::Open { vamm, side: Side::Buy, margin: u, lev: u, limit: 0 } });
+            tr.step(&mut w, &Op::Eng { sender: ID_SUFFIX_ACCOUNT, funds: 0, m: EMsg::Liq { vamm, trader: ID_SUFFIX_ACCOUNT, limit: 0 } });
+        }
+        tr.end();
+    }
+}
